@@ -86,7 +86,12 @@ def expected_refusal(op, pre):
         q = q_of(qn)
         if q is None:
             return ("ch", 404)
-        return ("ch", 405) if locked(q) else None
+        if locked(q):
+            return ("ch", 405)
+        args = dict(kv.split("=", 1) for kv in f[6].split(",")) if f[6] not in ("-", "") else {}
+        if "x-match" in args and args["x-match"] not in ("all", "any"):
+            return ("ch", 406)
+        return None
     if k in ("QP", "QDEL", "GET", "CONS"):
         q = q_of(de(f[3]))
         if q is None:
